@@ -60,3 +60,117 @@ package domain
 //@     each currentNode == iter_ret(getChild, 0) && currentNode != nil
 //@     each currentNode.hasV ==> v == currentNode.v && ok
 //@     each !currentNode.hasV ==> v == athead(v) && ok == athead(ok)
+
+// SubDomainMatcher.Add (C12): the rule is stored at the node reached from the root by the labels of
+// the normalised rule, right to left, creating missing nodes; nothing is stored on the way.
+//@ func (n *labelNode) newChild [C12]
+//@   log newChild
+//@   requires n != nil
+//@   modifies n.children
+//@   ensures result != nil && fresh(result) && !result.hasV && result.children == nil
+//@ func (m *SubDomainMatcher) Add [C12]
+//@   requires m != nil && m.root != nil
+//@   modifies *
+//@   ensures result == nil && calls(NormalizeDomain) == 1 && arg(NormalizeDomain, 0, 0) == s && arg(newScanner, 0, 0) == ret(NormalizeDomain, 0)
+//@   ensures calls(storeValue) == 1 && arg(storeValue, 0, 1) == v
+//@   loop 0:
+//@     invariant currentNode != nil && ds != nil && 0 - 1 <= ds.p && ds.p <= len(ds.s) && calls(storeValue) == 0
+//@     each iter_calls(scan) == 1 && iter_ret(scan, 0) && iter_calls(nextLabel) == 1 && iter_calls(getChild) == 1 && iter_arg(getChild, 0, 0) == athead(currentNode) && iter_arg(getChild, 0, 1) == iter_ret(nextLabel, 0)
+//@     each iter_ret(getChild, 0) != nil ==> currentNode == iter_ret(getChild, 0) && iter_calls(newChild) == 0
+//@     each iter_ret(getChild, 0) == nil ==> iter_calls(newChild) == 1 && iter_arg(newChild, 0, 0) == athead(currentNode) && iter_arg(newChild, 0, 1) == iter_ret(nextLabel, 0) && currentNode == iter_ret(newChild, 0)
+//@     each iter_calls(storeValue) == 0
+
+// FullMatcher (C12): a map from normalised names; a name matches iff its normal form is a key.
+//@ func (m *FullMatcher) Add [C12]
+//@   requires m != nil && m.m != nil
+//@   modifies *
+//@   ensures result == nil && (norm(s) in m.m) && m.m[norm(s)] == v
+//@   ensures forall k string :: k != norm(s) ==> ((k in m.m) == old(k in m.m)) && m.m[k] == old(m.m[k])
+//@ func (m *FullMatcher) Match [C12]
+//@   log fullMatch
+//@   requires m != nil
+//@   ensures ok == (m.m != nil && (norm(s) in m.m)) && (ok ==> v == m.m[norm(s)])
+
+// KeywordMatcher (C12): matches iff some stored keyword is a substring of the normalised name.
+//@ func (m *KeywordMatcher) Match [C12]
+//@   log kwMatch
+//@   requires m != nil
+//@   ensures ok ==> (exists k string :: (k in m.kws) && contains(norm(s), k) && v == m.kws[k])
+//@   ensures !ok ==> (forall k string :: (k in m.kws) ==> !contains(norm(s), k))
+//@   loop 0:
+//@     invariant m != nil && s == ret(NormalizeDomain, 0)
+//@     invariant forall k string :: visited(0, k) ==> !contains(s, k)
+//@ func (m *KeywordMatcher) Add [C12]
+//@   requires m != nil && m.kws != nil
+//@   modifies *
+//@   ensures result == nil && (norm(keyword) in m.kws) && m.kws[norm(keyword)] == v
+
+// RegexMatcher (C12): matches iff some stored expression matches the normalised name.
+//@ func (m *RegexMatcher) Match [C12]
+//@   log reMatchM
+//@   requires m != nil
+//@   requires forall k string :: (k in m.regs) ==> m.regs[k] != nil && m.regs[k].reg != nil
+//@   ensures ok ==> (exists k string :: (k in m.regs) && reMatch(m.regs[k].reg, norm(s)) && v == m.regs[k].v)
+//@   ensures !ok ==> (forall k string :: (k in m.regs) ==> !reMatch(m.regs[k].reg, norm(s)))
+//@   loop 0:
+//@     invariant m != nil && s == ret(NormalizeDomain, 0)
+//@     invariant forall k string :: (k in m.regs) ==> m.regs[k] != nil && m.regs[k].reg != nil
+//@     invariant forall k string :: visited(0, k) ==> !reMatch(m.regs[k].reg, s)
+
+// The four rule kinds behind one interface. mOK / mV: what a matcher answers for a name (abstract
+// here; each implementation above is verified against its own, stronger, contract).
+//@ interface Matcher.Match
+//@   log Match
+//@   params self, s
+//@   modifies *
+//@ interface WriteableMatcher.Add
+//@   log AddI
+//@   params self, pattern, v
+//@   modifies *
+
+//@ type MixMatcher
+//@   immutable full, domain, regex, keyword
+
+// MixMatcher.Match (C12): full, domain, regexp, keyword are asked in exactly this order with the
+// caller's name; the first that matches decides (its value is returned); no match if none does.
+//@ func (m *MixMatcher) Match [C12]
+//@   log mixMatch
+//@   requires m != nil && m.full != nil && m.domain != nil && m.regex != nil && m.keyword != nil
+//@   modifies *
+//@   ensures ok ==> calls(Match) >= 1 && v == lastret(Match, 0) && lastret(Match, 1)
+//@   ensures !ok ==> it0 == 4
+//@   loop 0:
+//@     invariant 0 <= it0 && it0 <= 4 && m != nil && !ok
+//@     each iter_calls(Match) == 1 && !iter_ret(Match, 0, 1) && iter_arg(Match, 0, 1) == s
+//@     each iter_arg(Match, 0, 0).val == ite(ri0 == 0, m.full, ite(ri0 == 1, m.domain, ite(ri0 == 2, m.regex, m.keyword)))
+
+// GetSubMatcher / Add (C12): the rule's prefix selects the matcher (full / domain / regexp /
+// keyword), a rule without prefix goes to the default matcher, an unknown prefix or a missing
+// default is an error; the pattern after the prefix is handed on unchanged.
+//@ func (m *MixMatcher) GetSubMatcher [C12]
+//@   log getSubMatcher
+//@   requires m != nil
+//@   ensures typ == "full" ==> result.val == m.full
+//@   ensures typ == "domain" ==> result.val == m.domain
+//@   ensures typ == "regexp" ==> result.val == m.regex
+//@   ensures typ == "keyword" ==> result.val == m.keyword
+//@   ensures typ != "full" && typ != "domain" && typ != "regexp" && typ != "keyword" ==> result == nil
+//@ func (m *MixMatcher) splitTypeAndPattern [C12]
+//@   log splitTP
+//@   ensures calls(SplitString2) == 1 && arg(SplitString2, 0, 0) == s && arg(SplitString2, 0, 1) == ":"
+//@   ensures ret(SplitString2, 0, 2) ==> result_0 == ret(SplitString2, 0, 0) && result_1 == ret(SplitString2, 0, 1)
+//@   ensures !ret(SplitString2, 0, 2) ==> result_0 == ret(SplitString2, 0, 0) && result_1 == s
+//@ func (m *MixMatcher) Add [C12]
+//@   requires m != nil
+//@   modifies *
+//@   ensures calls(splitTP) == 1 && arg(splitTP, 0, 1) == s
+//@   ensures len(ret(splitTP, 0, 0)) == 0 && old(len(m.defaultMatcher)) == 0 ==> result != nil && calls(AddI) == 0
+//@   ensures calls(getSubMatcher) == 1 ==> arg(getSubMatcher, 0, 1) == ite(len(ret(splitTP, 0, 0)) == 0, old(m.defaultMatcher), ret(splitTP, 0, 0))
+//@   ensures calls(getSubMatcher) == 1 && ret(getSubMatcher, 0) == nil ==> result != nil && calls(AddI) == 0
+//@   ensures calls(AddI) == 1 ==> arg(AddI, 0, 0) == ret(getSubMatcher, 0) && arg(AddI, 0, 1) == ret(splitTP, 0, 1) && arg(AddI, 0, 2) == v && result == ret(AddI, 0)
+
+// Load (C12): one rule = one Add of the parsed pattern; a parse error stops it.
+//@ func Load [C12]
+//@   requires m != nil
+//@   modifies *
+//@   ensures calls(AddI) <= 1 && (calls(AddI) == 1 ==> arg(AddI, 0, 0) == m && result == ret(AddI, 0))
